@@ -61,10 +61,14 @@ def conic(state, mu=MU_EARTH):
     alpha = -2.0 * en / mu  # = 1/a
     p = hn * hn / mu
     W = tuple(x / hn for x in h)
-    if e < 1e-12:
+    # in-plane part of the eccentricity vector (its rounding-level out-of-plane part would tilt P by ~eps/e)
+    evw = dot(ev, W)
+    evp = tuple(ev[i] - evw * W[i] for i in range(3))
+    ep = vnorm(evp)
+    if ep < 1e-12:
         P = tuple(x / rn for x in r)  # circular: measure the anomaly from the current position
     else:
-        P = tuple(x / e for x in ev)
+        P = tuple(x / ep for x in evp)
     Q = cross(W, P)
     nu = math.atan2(dot(r, Q), dot(r, P))
     if abs(alpha) * rn < 1e-11:
